@@ -616,3 +616,19 @@ Proof.
   unfold impl_seq. destruct (parse_set s); [|discriminate].
   destruct (seq_msgs _ _); [|discriminate]. intros [= <-]. apply dedup_first_NoDup.
 Qed.
+
+(* UID mode: each selected message is selected once, whatever the set repeats *)
+Lemma uid_nodup uids s l : impl_uid uids s = Some l -> NoDup l.
+Proof.
+  unfold impl_uid. destruct (parse_set s); [|discriminate].
+  destruct uids; intros [= <-]; [constructor|apply dedup_first_NoDup].
+Qed.
+
+(* UID mode: everything selected is the UID of a message of the view (never a number that is merely in range) *)
+Lemma uid_selected_exist uids s l u : srt uids -> impl_uid uids s = Some l -> In u l -> In u uids.
+Proof.
+  intros Hs Hl Hu. destruct (set32 s) eqn:E32.
+  - destruct (impl_uid_correct uids s Hs E32) as (l' & Hl' & Hm). rewrite Hl in Hl'. injection Hl' as <-.
+    apply Hm in Hu. exact (proj1 Hu).
+  - rewrite (impl_uid_invalid_is_bad uids s E32) in Hl. discriminate.
+Qed.
